@@ -1,6 +1,7 @@
 package drv
 
 import (
+	"context"
 	"encoding/json"
 	"fmt"
 	"math/rand"
@@ -249,6 +250,24 @@ func CheckRestartState(sys *core.Sys, specs []gen.PipeSpec, wantIDs []string, la
 			}
 		}
 	}
+	// a graceful shutdown of the restarted runner returns: nothing that was loaded from the store is "running" (bounded
+	// wait in this goroutine's own 2 ms sleeps: 10 s for a runner whose jobs have all ended)
+	DrainAll(sys)
+	sd := make(chan struct{})
+	go func() { defer close(sd); _ = sys.Shutdown(3, context.Background(), "graceful, after restart") }()
+	returned := false
+	for i := 0; i < 5000 && !returned; i++ {
+		select {
+		case <-sd:
+			returned = true
+		default:
+			time.Sleep(2 * time.Millisecond)
+		}
+	}
+	sit("graceful shutdown of the restarted runner")
+	if !returned {
+		find("C11:shutdown-of-restarted-runner-does-not-return", "%s: every job this runner started has ended, yet a graceful Shutdown does not return within 10 s (a job loaded from the store counts as running?)", label)
+	}
 	return v
 }
 
@@ -323,7 +342,13 @@ func drainUnlisted(sys *core.Sys) bool {
 // restartProps: which properties a finding about a restarted runner refutes
 func restartProps(sig string) []string {
 	if len(sig) > 4 && sig[:4] == "C03:" || sig == "C10:first-request-after-restart-not-started" {
-		return []string{"C10", "C03"}
+		return []string{"C10", "C03", "C05"}
+	}
+	if sig == "C10:first-request-after-restart-rejected" {
+		return []string{"C10", "C05"}
+	}
+	if len(sig) > 4 && sig[:4] == "C11:" {
+		return []string{"C11", "C10"}
 	}
 	if len(sig) > 4 && sig[:4] == "C15:" || sig == "C10:ghost-holds-capacity-after-restart" {
 		return []string{"C15", "C10"}
@@ -506,6 +531,8 @@ func PreparedStoreCase(seed int64, workDir string) *HistResult {
 		res.sit("C10", fmt.Sprintf("prepared job state=%d tasks=%d", state, len(pj.Tasks)))
 		res.sit("C03", fmt.Sprintf("restart on a store with a job in state %d: the next request must not be stranded", state))
 		res.sit("C15", fmt.Sprintf("restart on a store with a job in state %d: listings vs job flags", state))
+		res.sit("C05", fmt.Sprintf("restart on a store with a job in state %d: the first request is judged like on an idle pipeline", state))
+		res.sit("C11", fmt.Sprintf("restart on a store with a job in state %d: graceful shutdown returns", state))
 	}
 	dir, err := os.MkdirTemp(workDir, "prepared-")
 	if err != nil {
